@@ -24,6 +24,7 @@ import (
 
 	"github.com/projecteru2/core/discovery/helium"
 	enginefactory "github.com/projecteru2/core/engine/factory"
+	"github.com/projecteru2/core/store"
 	"github.com/projecteru2/core/store/etcdv3"
 	"github.com/projecteru2/core/types"
 )
@@ -31,7 +32,7 @@ import (
 type step struct {
 	Reg   string `json:"reg,omitempty"`   // global: register this address
 	Dereg string `json:"dereg,omitempty"` // global: deregister this address
-	Op    string `json:"op,omitempty"`    // sub | cancel | unsub | ""
+	Op    string `json:"op,omitempty"`    // sub | cancel | unsub | closewatch | ""
 	Sid   int    `json:"sid,omitempty"`
 	Mode  string `json:"mode,omitempty"` // reader | slow
 }
@@ -83,13 +84,66 @@ func (s *subscriber) read() {
 	}
 }
 
+// relayStore is the real store, except that the channel of ServiceStatusStream is relayed through
+// a channel the harness can close: this is what helium sees when the etcd watch fails
+// (ServiceStatusStream returns on resp.Err() / a closed watch channel and closes its channel).
+type relayStore struct {
+	store.Store
+	mu   sync.Mutex
+	kill chan struct{}
+}
+
+func (r *relayStore) ServiceStatusStream(ctx context.Context) (chan []string, error) {
+	src, err := r.Store.ServiceStatusStream(ctx)
+	if err != nil {
+		return nil, err
+	}
+	out := make(chan []string)
+	go func() {
+		defer close(out)
+		for {
+			select {
+			case v, ok := <-src:
+				if !ok {
+					return
+				}
+				select {
+				case out <- v:
+				case <-r.kill:
+					go func() { // keep the real stream from blocking
+						for range src {
+						}
+					}()
+					return
+				}
+			case <-r.kill:
+				go func() {
+					for range src {
+					}
+				}()
+				return
+			}
+		}
+	}()
+	return out, nil
+}
+
 type instance struct {
-	h    *helium.Helium
-	subs map[int]*subscriber
+	h     *helium.Helium
+	relay *relayStore
+	subs  map[int]*subscriber
 }
 
 func (in *instance) apply(ctx context.Context, st step) {
 	switch st.Op {
+	case "closewatch":
+		in.relay.mu.Lock()
+		select {
+		case <-in.relay.kill:
+		default:
+			close(in.relay.kill)
+		}
+		in.relay.mu.Unlock()
 	case "sub":
 		sctx, cancel := context.WithCancel(ctx)
 		id, ch := in.h.Subscribe(sctx)
@@ -153,7 +207,8 @@ func runBatch(t *testing.T, m *etcdv3.Mercury, ks []*kase) {
 	defer cancel()
 	ins := make([]*instance, len(ks))
 	for i := range ks {
-		ins[i] = &instance{h: helium.New(ctx, types.GRPCConfig{ServiceDiscoveryPushInterval: time.Second}, m), subs: map[int]*subscriber{}}
+		rs := &relayStore{Store: m, kill: make(chan struct{})}
+		ins[i] = &instance{h: helium.New(ctx, types.GRPCConfig{ServiceDiscoveryPushInterval: time.Second}, rs), relay: rs, subs: map[int]*subscriber{}}
 	}
 	unreg := map[string]func(){}
 	defer func() {
@@ -229,7 +284,15 @@ func genScript(r *hx.Rng, tl []step, slowPct int) []step {
 	subs := map[int]*info{}
 	next := 1
 	withSlow := r.Chance(slowPct)
+	closeAt := -1
+	if r.Chance(12) && len(st) > 2 {
+		closeAt = r.Range(1, len(st)-2)
+	}
 	for i := range st {
+		if i == closeAt {
+			st[i].Op = "closewatch"
+			continue
+		}
 		var live []int
 		for id, s := range subs {
 			if !s.unsub {
@@ -277,6 +340,7 @@ func corpusBatch() []*kase {
 		mk("c-cancel-then-unsub", step{Op: "sub", Sid: 1, Mode: "reader"}, step{Op: "sub", Sid: 2, Mode: "reader"}, step{Op: "cancel", Sid: 2}, step{Op: "unsub", Sid: 2}, step{}),
 		mk("c-slow-blocks-others", step{Op: "sub", Sid: 1, Mode: "reader"}, step{Op: "sub", Sid: 2, Mode: "slow"}, step{}, step{Op: "unsub", Sid: 1}, step{}),
 		mk("c-slow-self-unsub", step{Op: "sub", Sid: 1, Mode: "slow"}, step{}, step{Op: "unsub", Sid: 1}, step{}, step{}),
+		mk("c-watch-closed", step{Op: "sub", Sid: 1, Mode: "reader"}, step{Op: "closewatch"}, step{Op: "sub", Sid: 2, Mode: "reader"}, step{Op: "cancel", Sid: 1}, step{Op: "unsub", Sid: 1}),
 		mk("c-slow-cancelled-recovers", step{Op: "sub", Sid: 1, Mode: "reader"}, step{Op: "sub", Sid: 2, Mode: "slow"}, step{Op: "cancel", Sid: 2}, step{Op: "unsub", Sid: 2}, step{}),
 	}
 }
